@@ -22,8 +22,8 @@ def P(pid, rules, explanation, not_decided, assumptions=(), design="3"):
                           assumptions=list(assumptions), design=f"DESIGN.md section {design}")
 
 
-P("C01", ["IDX", "RETRY", "SIGN", "FREE", "CPFORM", "ARGNAME", "DIRECTION", "RATIOFORM", "PGFORM", "SUBFORM", "SHARED"],
-  "(SHARED, conservative) the kernels keep no module-level state between calls, so an iteration depends on this run only; Structural necessary conditions of C01, decided on every path of the source: (IDX) index-space typing of "
+P("C01", ["IDX", "RETRY", "SIGN", "FREE", "CPFORM", "ARGNAME", "DIRECTION", "RATIOFORM", "PGFORM", "SUBFORM", "SHARED", "GETB"],
+  "(GETB) the box the solver works in is the caller's box (a side becomes infinite only when it is None); (SHARED, conservative) the kernels keep no module-level state between calls, so an iteration depends on this run only; Structural necessary conditions of C01, decided on every path of the source: (IDX) index-space typing of "
   "get_cauchy_point shows the sorted breakpoint list is filtered and walked in its own rank space, so variables "
   "resting on a bound with the gradient pushing outward (t = 0) cannot scramble the breakpoint order -- the "
   "defect behind the stalls the property names; (RETRY) a failed line search aborts only after a retry from a "
@@ -34,16 +34,16 @@ P("C01", ["IDX", "RETRY", "SIGN", "FREE", "CPFORM", "ARGNAME", "DIRECTION", "RAT
   "bound ratios are (bound - point)/direction.",
   "convergence to a KKT point, the level reached by the projected gradient, absence of stalls in general "
   "(floating-point trajectories over all convex objectives)", design="3/C01")
-P("C02", ["BOX", "SIGN", "FDB", "SF6"],
-  "(SF6) the user's callables receive private copies, so user code cannot write the projected arrays the provenance argument tracks; C02 is decided as a provenance property: (BOX) a must-dataflow shows that every argument of the wrapper's "
+P("C02", ["BOX", "SIGN", "FDB", "SF6", "GETB"],
+  "(GETB) get_bounds hands on the caller's box unchanged (None -> infinity only); (SF6) the user's callables receive private copies, so user code cannot write the projected arrays the provenance argument tracks; C02 is decided as a provenance property: (BOX) a must-dataflow shows that every argument of the wrapper's "
   "fun/grad/fun_and_grad (hence of the user's objective, gradient and of approx_derivative's x0), the callback's "
   "x and every returned x is the output of a projection onto the caller's [lb, ub] (np.clip / clip2bounds / "
   "min-max with the very lb, ub of get_bounds) or a copy of it, with no arithmetic in between; (SIGN) step "
   "bounds pick the bound the direction points to; (FDB) the caller's box is the box handed to the differencer.",
   "nothing of the statement is left out, under the assumptions np.clip is exact and SciPy's approx_derivative "
   "keeps its stencil inside `bounds`", design="3/C02")
-P("C03", ["DOWNHILL", "ACCEPT", "KEEP", "LSCAP", "SCALEPOS", "UNITS"],
-  "(UNITS) the reference value and slope handed to the line search are in the same unit as the wrapper's evaluations it is compared with; (SCALEPOS) the packaged gradient scaler yields a positive factor -- a negative one turns descent into ascent; The selection logic only compares objective values, so its correctness is a dataflow fact: (DOWNHILL) an "
+P("C03", ["DOWNHILL", "ACCEPT", "KEEP", "LSCAP", "SCALEPOS", "UNITS", "SF1", "SF3"],
+  "(SF1, SF3) the value the line search compares is the wrapper's value at the trial point: the cache is keyed on the point and written by the evaluation at that point only; (UNITS) the reference value and slope handed to the line search are in the same unit as the wrapper's evaluations it is compared with; (SCALEPOS) the packaged gradient scaler yields a positive factor -- a negative one turns descent into ascent; The selection logic only compares objective values, so its correctness is a dataflow fact: (DOWNHILL) an "
   "order-fact analysis of line_search proves the returned step is None or a step whose evaluated value is "
   "strictly below the (never overwritten) start value, NaN trial values never qualify; (ACCEPT) inside the main loop "
   "the iterate is only ever redefined as the projection of x + s*d with s the step returned by this iteration's "
@@ -69,15 +69,15 @@ P("C05", ["COH", "CNT", "FIELDS", "SF1", "SF3", "SF5", "SF6", "ESC", "SF4"],
   "field agreement; the wrapper's own counting / caching rules are those of C15.",
   "bit-equality of the user's arithmetic between two calls (trusted: same call); determinism of user code",
   design="3/C05")
-P("C06", ["ORIENT", "FIELDS", "MEM", "OWN", "FDB", "BIND", "SFREAD", "UNITS"],
-  "(UNITS) values read back from a checkpoint are used in the unit they were stored in (writer/reader agreement on the scaling factor); (OWN) decoding a checkpoint does not write into it, (FDB) differencing options depend on the caller's arguments only, (BIND) the line search sees the global iteration number, (SFREAD) the solver reads no evaluation history of the wrapper, which a restart cannot reproduce; (ORIENT) orientation typing of the checkpoint decoder: increments accumulated from the newest pair backwards, "
+P("C06", ["ORIENT", "FIELDS", "MEM", "OWN", "FDB", "BIND", "SFREAD", "UNITS", "MAXLEN"],
+  "(MAXLEN) a history deque built with maxlen= is bounded by exactly maxcor + 1; (UNITS) values read back from a checkpoint are used in the unit they were stored in (writer/reader agreement on the scaling factor); (OWN) decoding a checkpoint does not write into it, (FDB) differencing options depend on the caller's arguments only, (BIND) the line search sees the global iteration number, (SFREAD) the solver reads no evaluation history of the wrapper, which a restart cannot reproduce; (ORIENT) orientation typing of the checkpoint decoder: increments accumulated from the newest pair backwards, "
   "subtracted from the newest point, appended oldest-first, identical shape for X and G -- the inverse of the "
   "encoder fixed by SIB; (FIELDS) every field a restart reads is written by every result and lands in the live "
   "variable it came from; (MEM) the refill is bounded by maxcor+1 points and drops from the left, so reducing "
   "maxcor keeps the most recent pairs.",
   "agreement 'up to rounding' of the continued iterates with the uninterrupted run (arithmetic)", design="3/C06")
-P("C07", ["ESC", "NITOFF", "SIB", "CBUSE", "CNT", "FIELDS", "ORIENT", "DOWNHILL", "BIND", "SFREAD"],
-  "(SFREAD, DOWNHILL, BIND) the line search depends only on quantities a checkpoint carries: start value, global iteration number, evaluators; (ESC) may-alias origins of everything handed to the callback are disjoint from the targets of every in-place "
+P("C07", ["ESC", "NITOFF", "SIB", "CBUSE", "CNT", "FIELDS", "ORIENT", "DOWNHILL", "BIND", "SFREAD", "LSCAP"],
+  "(LSCAP) the line-search cap is computed from the counters at the time of use, so a restart sees the same cap as the uninterrupted run; (SFREAD, DOWNHILL, BIND) the line search depends only on quantities a checkpoint carries: start value, global iteration number, evaluators; (ESC) may-alias origins of everything handed to the callback are disjoint from the targets of every in-place "
   "write reachable afterwards; (NITOFF) counter-offset analysis: the state's nit equals the nit of a run stopped "
   "at that iteration; (SIB) the state and the final result bind the same keywords to the same expressions; "
   "(CBUSE) the callback's result only decides the user-callback stop and nothing else depends on the presence "
@@ -102,8 +102,8 @@ P("C09", ["SIGN", "ALPHA", "FREE", "RATIOFORM", "SUBFORM", "KFACT", "SHARED", "O
   "(RATIOFORM) ratios are (bound - x_c)/dHat; (SUBFORM) reduced gradient r = g + theta(x_c - x) - W M c and step "
   "dHat = -(1/theta)(rHat + (1/theta) Z^T W v) match the direct primal method up to algebraic equivalence.",
   "the solve of the reduced system itself (K, LEL^T, Sherman-Morrison-Woodbury), model decrease, descent direction", design="3/C09")
-P("C10", ["MEM", "BFGSFORM", "OFFER", "RETRY", "MATSOWN", "BIND"],
-  "(BIND) the memory update is given the curvature threshold eps_SY (not another epsilon), so every stored pair satisfies s.y > eps_SY y.y; (MATSOWN) the fields of the compact representation are assigned only inside bfgsmats.py, where BFGSFORM checks them; (RETRY) the retry branch cuts the stored points to one when it resets the matrices, so matrices and stored pairs agree; The four memory-discipline clauses of C10 are decided package-wide over every insertion / removal / rebinding "
+P("C10", ["MEM", "BFGSFORM", "OFFER", "RETRY", "MATSOWN", "BIND", "MAXLEN"],
+  "(MAXLEN) idem; (BIND) the memory update is given the curvature threshold eps_SY (not another epsilon), so every stored pair satisfies s.y > eps_SY y.y; (MATSOWN) the fields of the compact representation are assigned only inside bfgsmats.py, where BFGSFORM checks them; (RETRY) the retry branch cuts the stored points to one when it resets the matrices, so matrices and stored pairs agree; The four memory-discipline clauses of C10 are decided package-wide over every insertion / removal / rebinding "
   "of the point and gradient histories (MEM): guarded by the strict curvature test on the inserted pair, "
   "reject-no-touch for history and matrices, bounded FIFO (<= maxcor pairs, oldest dropped), lock-step of X and G; "
   "(BFGSFORM) theta = y.y/s.y of the newest pair and S, Y, L, D, W, the middle-matrix factors assembled from the "
@@ -117,8 +117,8 @@ P("C11", ["BOX", "DOWNHILL", "LSBUD", "SIGN", "RATIOFORM", "FDB"],
   "evaluation per loop iteration, counter guard `< max_iter`, SciPy's DCSRCH._iterate calls no user function "
   "(checked on SciPy's source); (SIGN) the maximum step is non-negative.",
   "step in (0, stpmax] inside SciPy's DCSRCH (trusted contract)", design="3/C11")
-P("C12", ["CONST", "BIND", "ARGNAME", "DIRECTION", "OFFER", "STEPINIT", "BFGSFORM", "CPFORM", "ESC", "SF4", "NITOFF", "ORIENT"],
-  "(ORIENT) a run continued through a checkpoint restores the pairs in order; (CONST) the evaluated defaults of the line-search / curvature constants equal those of Algorithm 778 at every "
+P("C12", ["CONST", "BIND", "ARGNAME", "DIRECTION", "OFFER", "STEPINIT", "BFGSFORM", "CPFORM", "ESC", "SF4", "NITOFF", "ORIENT", "FILTERWALK"],
+  "(FILTERWALK) with an update function installed the curvature filter visits every stored point (an identity hook must not change the run); (ORIENT) a run continued through a checkpoint restores the pairs in order; (CONST) the evaluated defaults of the line-search / curvature constants equal those of Algorithm 778 at every "
   "sibling signature; (BIND) each constant reaches its consumer in the right slot (minimize -> line_search -> "
   "DCSRCH / dcsrch; eps_SY -> update_lbfgs_matrices / filter -> is_update_X_and_G); structural faithfulness of "
   "the iteration: (ARGNAME) no crossed argument slots at any internal call, (DIRECTION) d = subspace point - x from "
@@ -129,8 +129,8 @@ P("C12", ["CONST", "BIND", "ARGNAME", "DIRECTION", "OFFER", "STEPINIT", "BFGSFOR
   "selects the first-iteration policy is the same in a retained state and in a run stopped there.",
   "iterate-by-iterate agreement with the Fortran reference in floating point; the subspace solve; SciPy's dcsrch",
   design="3/C12")
-P("C13", ["FILT", "SEED", "FLOW", "MEM", "FILTERWALK", "DOWNHILL", "STEPINIT"],
-  "(STEPINIT) the line search starts from the caller's (possibly redefined) f0, not from a value memoised by the wrapper; (FILT) must-pass-through with path-correlation pruning: from every call of the user's update function every "
+P("C13", ["FILT", "SEED", "FLOW", "MEM", "FILTERWALK", "DOWNHILL", "STEPINIT", "SIB"],
+  "(SIB) the pairs carried by states and results are differences of the histories as they are at the construction (not of a copy taken before the rewrite); (STEPINIT) the line search starts from the caller's (possibly redefined) f0, not from a value memoised by the wrapper; (FILT) must-pass-through with path-correlation pruning: from every call of the user's update function every "
   "path to a consumer of G (matrix update, callback state, returned result) passes the curvature filter whose "
   "result rebinds X, G; (SEED) the filter seeds its output with the newest element and only grows on the left; "
   "(FLOW) argument / target order of both calls; (MEM) the filter's insertions are guarded by the curvature test "
@@ -163,15 +163,15 @@ P("C17", ["SCALER", "UNITS", "SF4", "SCALEPOS", "SCALEUSE", "OWN"],
   "only write of the factor outside the class; (UNITS) raw/scaled unit typing: target tested on the unscaled "
   "value, ftol test compares like units, results and line search get scaled values; (SF4) scale applied inside "
   "the accessors.", "equality of two complete runs (relation between trajectories)", design="3/C17")
-P("C18", ["SIB", "ESC", "MEM", "DIAG", "RETRY"],
-  "(RETRY) after a failed search the retained point and gradient are the newest stored ones; (SIB) every LbfgsInvHessProduct is built from (diff(X), diff(G)) in that order (or the checkpoint's pairs with "
+P("C18", ["SIB", "ESC", "MEM", "DIAG", "RETRY", "UNITS"],
+  "(UNITS) the gradients stored in the history are all scaled by the same factor, so their differences are differences of the user's gradients; (RETRY) after a failed search the retained point and gradient are the newest stored ones; (SIB) every LbfgsInvHessProduct is built from (diff(X), diff(G)) in that order (or the checkpoint's pairs with "
   "one slice); (ESC) stored points / gradients are private and never written afterwards, so pairs are bit-exact "
   "differences of visited points; (MEM) <= maxcor pairs each with s.y > eps*y.y >= 0; (DIAG) the diagonal utility "
   "probes e_i, reads and writes index i, over range(n), with a fresh probe per iteration.",
   "symmetric positive definiteness of the dense operator as a numerical fact (follows mathematically from s.y > 0)",
   design="3/C18")
-P("C19", ["AD"],
-  "(AD) source-level differentiation: both bodies of each exported (f, f_grad) pair are translated from the numpy "
+P("C19", ["AD", "ARRLIKE"],
+  "(ARRLIKE) every benchmark converts its array_like point before any raw arithmetic on it; (AD) source-level differentiation: both bodies of each exported (f, f_grad) pair are translated from the numpy "
   "subset they use into closed-form sympy expressions over x0..x(n-1); d f / d x_i minus the translated gradient "
   "must be identically zero (simplify, else exact evaluation at rational points with 60 digits) for n = 1..N.",
   "symbolic n (fixed n <= 6 quick / 12 thorough)", design="3/C19")
